@@ -282,7 +282,12 @@ pub(crate) fn parse_vlq_segment_into(segment: &str, rv: &mut Vec<i64>) -> Result
         }
         let val = enc & 0b11111;
         let cont = enc >> 5;
-        cur += val.checked_shl(shift).ok_or(Error::VlqOverflow)?;
+        // the 13th digit may only contribute the bits that still fit into the (positive) i64
+        let part = val
+            .checked_shl(shift)
+            .filter(|part| part >> shift == val)
+            .ok_or(Error::VlqOverflow)?;
+        cur += part;
         shift += 5;
 
         if cont == 0 {
